@@ -52,7 +52,7 @@ PROP = {
     "nontrivial": nontrivial,
     "classify": classify,
     "rule": "Every case drives the real component (its internal message.Router running) with a scripted source subscriber and a scripted "
-            "destination publisher that records, inside Publish, topic/uuid/payload/metadata, object identity and whether the consumed message "
+            "destination publisher that (besides accepting or returning an error it can PANIC on scripted calls and accept again afterwards: the consumed message must then be Nacked, never acked) records, inside Publish, topic/uuid/payload/metadata, object identity and whether the consumed message "
             "was still unsettled, and fails on scripted calls; settlement is read from Acked()/Nacked(). "
             "rq: Requeuer (default and caller-supplied Router) - counter table {absent, 0, 1, 7, +5, ' 5', x, -3, 007, MaxInt64-1, MaxInt64 (known "
             "finding), 2^63, MinInt64, 1_0, non-ASCII digits, ...}, 150 (quick) / 4500 (thorough) random messages with arbitrary-byte "
@@ -90,7 +90,7 @@ PROP = {
         "(payload bytes arbitrary): JSON is the wire contract and encoding/json replaces invalid bytes by U+FFFD (reproduced: uuid 'id-\\xff' "
         "arrives as 'id-\\ufffd'); generators for these flows emit valid UTF-8 only, FanIn/FanOut/Requeuer get arbitrary bytes everywhere",
         "messages have a non-nil Metadata map (message.NewMessage); FanIn source topics are pairwise distinct (duplicate names make AddHandler panic)",
-        "destination publishers either accept or return an error (no panic, no blocking); GeneratePublishTopic is a function of the message",
+        "destination publishers accept, return an error, or panic (a panic is recovered by the Router, which Nacks; it is exercised for Forwarder, Requeuer and FanIn); a destination that blocks forever is outside the model; GeneratePublishTopic is a function of the message",
         "FanOut's destination is its internal GoChannel, which cannot be made to fail while running: only acceptance is exercised there",
         "Delay>0 with a context cancelled during the wait (rather than before it) is a race between two ready select cases and is not exercised",
     ],
